@@ -393,7 +393,8 @@ impl<W: 'static, R: 'static, T: 'static> XSequence<W, R, T> {
             let element = forward_err!(element?);
             forward_err!(heap.push(element)?);
         }
-        let mut ret = Vec::with_capacity(n);
+        // n may be far more than there are elements
+        let mut ret = Vec::with_capacity(n.min(heap.len()));
         for _ in 0..n {
             if let Some(e) = forward_err!(heap.pop()?) {
                 ret.push(e)
